@@ -118,7 +118,7 @@ class Checker:
             if d:
                 ctx.violation("entry:%s%s" % (field_of(d), tagp),
                               "UnitHeader::entry(offset): difference at %s; expected %s got %s" % (d, case["entries"], o["entries"]), case, o["entries"])
-            ctx.nontrivial("S" + canon(sid))
+            ctx.nontrivial("S" + repr(sid))
         for nav, no in zip(case.get("navs", []), o.get("navs", [])):
             self.nav(case, nav, no)
 
@@ -131,11 +131,10 @@ class Checker:
             ctx.violation("nav:%s:%s%s:%s" % (key, no.get("outcome") or "open-error", tagp, no.get("loc", "")),
                           "script %s from start %s on %s did not return normally: %s" % (nav["script"], nav["start"], case["sid"], no), nav, no)
             return
-        steps = no["steps"]
-        if len(steps) != len(nav["script"]):
-            ctx.violation("nav:%s:script-stopped%s" % (key, tagp), "script %s stopped after %d calls" % (nav["script"], len(steps)), nav, no)
+        if no["n"] != len(nav["script"]):
+            ctx.violation("nav:%s:script-stopped%s" % (key, tagp), "script %s stopped after %d calls" % (nav["script"], no["n"]), nav, no)
             return
-        last = steps[-1]
+        last = no["last"]
         if nav["exp"].get("ret") == "err":
             # reading past the end of the unit with EntriesRaw: an error is demanded, which one is drift
             if last.get("ret") != "err":
@@ -148,7 +147,7 @@ class Checker:
                 ctx.violation("nav:%s:%s%s" % (key, field_of(d), tagp),
                               "%s start=%s script %s on stream %s: last call differs at %s; expected %s got %s" %
                               (nav["api"], nav["start"], "".join(nav["script"]), case["sid"], d, nav["exp"], last), dict(nav, stream=case["sid"], info=case["info"], abbrev=case["abbrev"]), no)
-        ctx.nontrivial("N" + canon([case["sid"], nav["api"], nav["start"], nav["script"]]))
+        ctx.nontrivial("N" + repr((case["sid"], nav["api"], nav["start"], nav["script"])))
 
     def abbrev(self, case, o):
         ctx = self.ctx
@@ -170,49 +169,53 @@ class Checker:
                 bad = [g["code"] for g in o["gets"] if canon(g) not in set(as_set(exp["gets"]))]
                 ctx.violation("abbrev:get:len%d%s" % (len(bad[0]) if bad else 0, tagp),
                               "codes %s: get() expected %s got %s" % (case["codes"], exp["gets"], o["gets"]), case, o)
-        ctx.nontrivial("A" + canon(case["codes"]))
+        ctx.nontrivial("A" + repr(case["codes"]))
 
 
-def split_cases(ctx, cases_path, batch=150000):
-    """TLC prints stream definitions and navigation transitions separately;
-    join them (plumbing only) into replay cases: every stream once with its
-    header / raw / entry expectations, navigation transitions attached to a copy
-    of their stream's bytes in bounded batches."""
+def split_cases(ctx, cases_path, batch=120000):
+    """TLC prints stream definitions and navigation transitions separately (a
+    stream always before its transitions); join them (plumbing only) into replay
+    cases: every stream once with its header / raw / entry expectations,
+    navigation transitions attached to a copy of their stream's bytes in bounded
+    batches.  Expectations go to a parallel file (the harness never sees them)."""
     streams = {}
     out_path = os.path.join(ctx.work, "replay.ndjson")
+    exp_path = os.path.join(ctx.work, "replay-exp.ndjson")
     n_nav = 0
-    with open(out_path, "w") as out:
-        for c in read_ndjson(cases_path):
-            if c["t"] == "stream":
-                streams[canon(c["sid"])] = c
-                c["navs"] = []
-                out.write(json.dumps(c, separators=(",", ":")) + "\n")
-            elif c["t"] == "abbrev":
-                out.write(json.dumps(c, separators=(",", ":")) + "\n")
+    dumps = lambda v: json.dumps(v, separators=(",", ":"))
+    with open(out_path, "w") as out, open(exp_path, "w") as eout:
         buf = {}
         cnt = 0
 
         def flush():
             for k, navs in buf.items():
                 s = streams[k]
-                out.write(json.dumps({"t": "stream", "navonly": True, "sid": s["sid"], "info": s["info"], "abbrev": s["abbrev"],
-                                      "uidx": s["uidx"], "le": s["le"], "types": s["types"], "gets": [], "entries": [],
-                                      "navs": navs}, separators=(",", ":")) + "\n")
+                out.write(dumps({"t": "stream", "navonly": True, "sid": s["sid"], "info": s["info"], "abbrev": s["abbrev"],
+                                 "uidx": s["uidx"], "le": s["le"], "types": s["types"], "gets": [], "entries": [],
+                                 "navs": [{"api": n["api"], "start": n["start"], "script": n["script"]} for n in navs]}) + "\n")
+                eout.write(dumps([n["exp"] for n in navs]) + "\n")
             buf.clear()
         for c in read_ndjson(cases_path):
-            if c["t"] != "nav":
-                continue
-            k = canon(c["sid"])
-            if k not in streams:
-                raise ToolError("navigation case without its stream: %s" % k)
-            buf.setdefault(k, []).append({"api": c["api"], "start": c["start"], "script": c["script"], "exp": c["exp"]})
-            cnt += 1
-            n_nav += 1
-            if cnt >= batch:
-                flush()
-                cnt = 0
+            if c["t"] == "nav":
+                k = repr(c["sid"])
+                if k not in streams:
+                    raise ToolError("navigation case without its stream: %s" % k)
+                buf.setdefault(k, []).append(c)
+                cnt += 1
+                n_nav += 1
+                if cnt >= batch:
+                    flush()
+                    cnt = 0
+            elif c["t"] == "stream":
+                streams[repr(c["sid"])] = {k: c[k] for k in ("sid", "info", "abbrev", "uidx", "le", "types")}
+                c["navs"] = []
+                out.write(dumps(c) + "\n")
+                eout.write("[]\n")
+            elif c["t"] == "abbrev":
+                out.write(dumps(c) + "\n")
+                eout.write("[]\n")
         flush()
-    return out_path, len(streams), n_nav
+    return out_path, exp_path, len(streams), n_nav
 
 
 def run(ctx):
@@ -225,7 +228,7 @@ def run(ctx):
         f.write(CFG % TIERS[ctx.tier])
     r = ctx.tlc("MCDies", "MCDies_run", timeout=900 if q else 7200)
     t0 = time.time()
-    replay_path, nstreams, nnav = split_cases(ctx, r.cases_path)
+    replay_path, exp_path, nstreams, nnav = split_cases(ctx, r.cases_path)
     os.remove(r.cases_path)
     log("[c02] %d streams, %d navigation transitions joined in %.1fs" % (nstreams, nnav, time.time() - t0))
     nsamp = 0
@@ -235,15 +238,17 @@ def run(ctx):
         log("[c02] replay %s %.1fs" % (prof, time.time() - t0))
         t0 = time.time()
         ck = Checker(ctx, prof)
-        for i, case in enumerate(read_ndjson(replay_path)):
+        for i, (case, exps) in enumerate(zip(read_ndjson(replay_path), read_ndjson(exp_path))):
             o = obs.get(i)
+            for nav, e in zip(case.get("navs", []), exps):
+                nav["exp"] = e
             if case["t"] == "abbrev":
                 ck.abbrev(case, o)
             else:
                 ck.stream(case, o)
                 if nsamp < 3 and case.get("navonly") and o and o.get("navs"):
                     nsamp += 1
-                    ctx.sample({"stream": case["sid"], "info": case["info"], "nav": case["navs"][0], "obs": o["navs"][0]["steps"][-1] if "steps" in o["navs"][0] else o["navs"][0]})
+                    ctx.sample({"stream": case["sid"], "info": case["info"], "nav": case["navs"][0], "obs": o["navs"][0]})
         log("[c02] compare %s %.1fs" % (prof, time.time() - t0))
     ctx.cov["streams"] = nstreams
     ctx.cov["navigation_transitions"] = nnav
